@@ -104,6 +104,11 @@ func build(r *mon.Run, i int, ids map[string]*gen.Identity) *scenario {
 			body = []byte{}
 		}
 		h := http.Header{"Content-Type": {"text/plain"}, fmt.Sprintf("x-k%d", k): {"v", "w"}}
+		if k%3 == 1 {
+			// fields a cache would not store or replay: in a bundle they are header fields like any other, and covered
+			h["Set-Cookie"] = []string{"session=1"}
+			h["Strict-Transport-Security"] = []string{"max-age=1"}
+		}
 		b.Exchanges = append(b.Exchanges, &bundle.Exchange{Request: bundle.Request{URL: u, Header: http.Header{}}, Response: bundle.Response{Status: mon.Pick(g, []int{200, 200, 404, 301}), Header: h, Body: body}})
 		sc.orig[u.String()] = &original{url: u.String(), status: b.Exchanges[k].Response.Status, body: append([]byte{}, body...), signer: -1}
 	}
@@ -745,6 +750,12 @@ func run(r *mon.Run) {
 				})
 			}
 			mutEx("header-added", func(e *bundle.Exchange) { e.Response.Header["X-Injected"] = []string{"1"} })
+			// field names that code around signatures and caches is tempted to treat specially (hop-by-hop, stateful, the
+			// integrity fields themselves): adding one to a covered exchange is a change to its header fields like any other
+			for _, special := range []string{"Set-Cookie", "Strict-Transport-Security", "Clear-Site-Data", "Www-Authenticate", "Connection", "Keep-Alive", "Transfer-Encoding", "Content-Length", "Signature", "Variants", "Variant-Key", "Cache-Control", "Date", "Vary", "Content-Encoding-x", ":injected"} {
+				special := special
+				mutEx("header-added="+special, func(e *bundle.Exchange) { e.Response.Header[special] = []string{"injected=1"} })
+			}
 			mutEx("url-swapped-content", func(e *bundle.Exchange) { // another covered exchange's response under this URL
 				for _, oe := range rb.Exchanges {
 					if oe.Request.URL.String() != e.Request.URL.String() && sc.orig[oe.Request.URL.String()].signer >= 0 {
